@@ -28,6 +28,9 @@ pub enum Rhs {
     FreshGarbage(usize),
     /// the closure builds a bind over node .0 whose closure builds `node .1 .map(g(outer lhs, inner lhs, ·))`
     FreshBind(usize, usize),
+    /// the closure builds `node.map(move |y| g(captured_lhs, y))`, lets it escape, and returns the outer node itself
+    /// (the same right-hand side on every run, while the nodes built on the side belong to one run only)
+    SideNode(usize),
 }
 
 #[derive(Clone, Debug)]
@@ -698,7 +701,7 @@ impl World {
 
     fn rhs_handle(&self, r: &Rhs) -> Option<Incr<SV>> {
         match r {
-            Rhs::Node(j) | Rhs::FreshMap(j) | Rhs::FreshMapCap(j) | Rhs::FreshChain(j) | Rhs::FreshGarbage(j) | Rhs::FreshBind(j, _) => self.s_handle(*j),
+            Rhs::Node(j) | Rhs::SideNode(j) | Rhs::FreshMap(j) | Rhs::FreshMapCap(j) | Rhs::FreshChain(j) | Rhs::FreshGarbage(j) | Rhs::FreshBind(j, _) => self.s_handle(*j),
             Rhs::FreshConst => None,
         }
     }
@@ -1048,7 +1051,7 @@ impl World {
             if let Spec::Bind { then, els, .. } = &self.nodes[i].spec {
                 for r in [then, els] {
                     match r {
-                        Rhs::Node(j) | Rhs::FreshMap(j) | Rhs::FreshMapCap(j) | Rhs::FreshChain(j) | Rhs::FreshGarbage(j) => roots.push(*j),
+                        Rhs::Node(j) | Rhs::SideNode(j) | Rhs::FreshMap(j) | Rhs::FreshMapCap(j) | Rhs::FreshChain(j) | Rhs::FreshGarbage(j) => roots.push(*j),
                         Rhs::FreshBind(j, k) => {
                             roots.push(*j);
                             roots.push(*k);
@@ -1227,7 +1230,7 @@ impl World {
                 }
                 for r in [then, els] {
                     match r {
-                        Rhs::Node(k) | Rhs::FreshMap(k) | Rhs::FreshMapCap(k) | Rhs::FreshChain(k) | Rhs::FreshGarbage(k) => {
+                        Rhs::Node(k) | Rhs::SideNode(k) | Rhs::FreshMap(k) | Rhs::FreshMapCap(k) | Rhs::FreshChain(k) | Rhs::FreshGarbage(k) => {
                             if self.g_changed(*k, lo, hi, depth + 1) {
                                 return true;
                             }
@@ -1292,7 +1295,7 @@ impl World {
                         NodeKey::BindFn(n) => self.nodes[n].spec.inputs(),
                         NodeKey::Rhs(b, branch, _, pos) => match &self.nodes[b].spec {
                             Spec::Bind { then, els, .. } => match if branch { then } else { els } {
-                                Rhs::FreshMap(j) | Rhs::FreshMapCap(j) | Rhs::FreshGarbage(j) => vec![*j],
+                                Rhs::FreshMap(j) | Rhs::FreshMapCap(j) | Rhs::FreshGarbage(j) | Rhs::SideNode(j) => vec![*j],
                                 Rhs::FreshChain(j) => if pos == 0 { vec![*j] } else { vec![] },
                                 Rhs::FreshBind(a, k) => if pos == 9 { vec![*a] } else { vec![*k] },
                                 _ => vec![],
@@ -1578,7 +1581,7 @@ impl World {
                 let take_then = decide_pred(i as u16, &[l.clone()]);
                 let r = if take_then { then } else { els };
                 match r {
-                    Rhs::Node(j) => self.eval(*j, memo),
+                    Rhs::Node(j) | Rhs::SideNode(j) => self.eval(*j, memo),
                     Rhs::FreshMap(j) => app(rhs_fn(i, take_then, 0), &[self.eval(*j, memo)]),
                     Rhs::FreshMapCap(j) | Rhs::FreshGarbage(j) => app(rhs_fn(i, take_then, 0), &[l, self.eval(*j, memo)]),
                     Rhs::FreshBind(j, k) => app(rhs_fn(i, take_then, 0), &[l, self.eval(*j, memo), self.eval(*k, memo)]),
@@ -1626,7 +1629,7 @@ impl World {
                 Spec::Bind { then, els, .. } => {
                     let r = if branch { then } else { els };
                     match r {
-                        Rhs::FreshMap(j) | Rhs::FreshMapCap(j) | Rhs::FreshGarbage(j) => Some(vec![vec![self.eval(*j, memo)]]),
+                        Rhs::FreshMap(j) | Rhs::FreshMapCap(j) | Rhs::FreshGarbage(j) | Rhs::SideNode(j) => Some(vec![vec![self.eval(*j, memo)]]),
                         Rhs::FreshBind(j, k) => Some(vec![vec![self.eval(if pos == 9 { *j } else { *k }, memo)]]),
                         Rhs::FreshChain(j) => {
                             if pos == 0 {
@@ -1657,7 +1660,7 @@ impl World {
                     stack.push(*lhs);
                     if let Some(b) = branch(i) {
                         match if b { then } else { els } {
-                            Rhs::Node(j) | Rhs::FreshMap(j) | Rhs::FreshMapCap(j) | Rhs::FreshChain(j) | Rhs::FreshGarbage(j) => stack.push(*j),
+                            Rhs::Node(j) | Rhs::SideNode(j) | Rhs::FreshMap(j) | Rhs::FreshMapCap(j) | Rhs::FreshChain(j) | Rhs::FreshGarbage(j) => stack.push(*j),
                             Rhs::FreshBind(j, k) => {
                                 stack.push(*j);
                                 stack.push(*k);
@@ -2192,7 +2195,7 @@ impl World {
         let l = self.eval(*lhs, memo);
         Some(match if branch { then } else { els } {
             Rhs::FreshMap(j) => app(rhs_fn(b, branch, 0), &[self.eval(*j, memo)]),
-            Rhs::FreshMapCap(j) | Rhs::FreshGarbage(j) => app(rhs_fn(b, branch, 0), &[l, self.eval(*j, memo)]),
+            Rhs::FreshMapCap(j) | Rhs::FreshGarbage(j) | Rhs::SideNode(j) => app(rhs_fn(b, branch, 0), &[l, self.eval(*j, memo)]),
             Rhs::FreshBind(j, k) => app(rhs_fn(b, branch, 0), &[l, self.eval(*j, memo), self.eval(*k, memo)]),
             Rhs::FreshChain(j) => {
                 let a0 = app(rhs_fn(b, branch, 0), &[self.eval(*j, memo)]);
@@ -2675,6 +2678,19 @@ fn make_rhs(sh: &Rc<Shared>, ws: &WeakState, bind: usize, branch: bool, gen: u32
             });
             if sh.smuggle.get() { sh.smuggled.borrow_mut().push((bind, branch, gen, 0, n.clone())); }
             n
+        }
+        Rhs::SideNode(_) => {
+            let sh2 = sh.clone();
+            let cap = lhs.clone();
+            let n = h.unwrap().map(move |y| {
+                let _ = &g0_guard;
+                sh2.invoke(NodeKey::Rhs(bind, branch, gen, 0), vec![y.clone()]);
+                app(g0, &[cap.clone(), y.clone()])
+            });
+            // the node escapes whether or not the history observes it (dropped with the world otherwise)
+            sh.smuggled.borrow_mut().push((bind, branch, gen, 0, n));
+            cover("closure-returns-outer-node-and-builds-side-node");
+            h.unwrap().clone()
         }
         Rhs::FreshMapCap(_) => {
             let sh2 = sh.clone();
